@@ -1,6 +1,8 @@
 """seeded generators for program specs (see vf/dsl.py for the spec format)"""
 
 INT_FMTS = ["B", "H", "I", "Q", "b", "h", "i", "q"]
+# the same with an explicit byte order (big-endian ones are stored swapped)
+ORDERED_FMTS = [o + f for o in "<>!" for f in "HIQhiq"]
 FREE_REGS = [2, 3, 4, 5, 8, 9]
 INT_OPS = ["+", "-", "*", "//", "%", "&", "|", "^", "<<", ">>"]
 EDGES = [0, 1, -1, 2, -2, 7, 0x7f, 0x80, 0xff, 0x100, 0x7fff, 0x8000, 0xffff,
